@@ -1201,11 +1201,19 @@ impl UnifiedCommandExecutor {
             }
             
             KeyCommand::Expire { key, seconds } => {
+                if seconds == 0 {
+                    let deleted = self.storage.delete(db, &key)?;
+                    return Ok(RespFrame::Integer(if deleted { 1 } else { 0 }));
+                }
                 let result = self.storage.expire(db, &key, Duration::from_secs(seconds))?;
                 Ok(RespFrame::Integer(if result { 1 } else { 0 }))
             }
             
             KeyCommand::PExpire { key, milliseconds } => {
+                if milliseconds == 0 {
+                    let deleted = self.storage.delete(db, &key)?;
+                    return Ok(RespFrame::Integer(if deleted { 1 } else { 0 }));
+                }
                 let result = self.storage.pexpire(db, &key, milliseconds)?;
                 Ok(RespFrame::Integer(if result { 1 } else { 0 }))
             }
@@ -1248,13 +1256,15 @@ impl UnifiedCommandExecutor {
             }
             
             KeyCommand::RenameNx { old_key, new_key } => {
-                use crate::storage::commands::strings::handle_rename;
-                let frames = vec![
-                    RespFrame::from_string("RENAMENX"),
-                    RespFrame::from_bytes(old_key),
-                    RespFrame::from_bytes(new_key),
-                ];
-                handle_rename(&self.storage, db, &frames)
+                // Rename only if the new name is free (this used to be a plain RENAME)
+                if !self.storage.exists(db, &old_key)? {
+                    return Ok(RespFrame::error("ERR no such key"));
+                }
+                if self.storage.exists(db, &new_key)? {
+                    return Ok(RespFrame::Integer(0));
+                }
+                self.storage.rename(db, &old_key, new_key)?;
+                Ok(RespFrame::Integer(1))
             }
             
             KeyCommand::RandomKey => {
@@ -1948,6 +1958,26 @@ impl CommandParser {
         }
     }
     
+    /// A relative expire time as the command handlers accept it: a positive
+    /// integer whose value in milliseconds fits an i64. Returns milliseconds.
+    fn extract_expire_millis(frame: &RespFrame, unit_millis: bool) -> Result<u64> {
+        let invalid = || FerrousError::Command(CommandError::Generic("invalid expire time".to_string()));
+        let n = Self::extract_string(frame)?.parse::<i64>().map_err(|_| invalid())?;
+        if n <= 0 {
+            return Err(invalid());
+        }
+        let millis = if unit_millis { n } else { n.checked_mul(1000).ok_or_else(invalid)? };
+        Ok(millis as u64)
+    }
+    
+    /// A sorted-set score or score bound: any float except NaN
+    fn extract_score(frame: &RespFrame) -> Result<f64> {
+        match Self::extract_string(frame)?.parse::<f64>() {
+            Ok(n) if !n.is_nan() => Ok(n),
+            _ => Err(FerrousError::Command(CommandError::InvalidFloatValue)),
+        }
+    }
+    
     fn parse_set(frames: &[RespFrame]) -> Result<StringCommand> {
         if frames.len() < 3 {
             return Err(FerrousError::Command(CommandError::WrongNumberOfArguments("SET".into())));
@@ -1977,17 +2007,15 @@ impl CommandParser {
                     if i + 1 >= frames.len() {
                         return Err(FerrousError::Command(CommandError::SyntaxError("Missing EX value".to_string())));
                     }
-                    let seconds = Self::extract_string(&frames[i + 1])?.parse::<u64>()
-                        .map_err(|_| FerrousError::Command(CommandError::InvalidIntegerValue))?;
-                    options.expiration = Some(Duration::from_secs(seconds));
+                    let millis = Self::extract_expire_millis(&frames[i + 1], false)?;
+                    options.expiration = Some(Duration::from_millis(millis));
                     i += 2;
                 }
                 "PX" => {
                     if i + 1 >= frames.len() {
                         return Err(FerrousError::Command(CommandError::SyntaxError("Missing PX value".to_string())));
                     }
-                    let millis = Self::extract_string(&frames[i + 1])?.parse::<u64>()
-                        .map_err(|_| FerrousError::Command(CommandError::InvalidIntegerValue))?;
+                    let millis = Self::extract_expire_millis(&frames[i + 1], true)?;
                     options.expiration = Some(Duration::from_millis(millis));
                     i += 2;
                 }
@@ -2104,8 +2132,7 @@ impl CommandParser {
         if frames.len() != 4 {
             return Err(FerrousError::Command(CommandError::WrongNumberOfArguments("SETEX".into())));
         }
-        let seconds = Self::extract_string(&frames[2])?.parse::<u64>()
-            .map_err(|_| FerrousError::Command(CommandError::InvalidIntegerValue))?;
+        let seconds = Self::extract_expire_millis(&frames[2], false)? / 1000;
         Ok(StringCommand::SetEx {
             key: Self::extract_bytes(&frames[1])?,
             value: Self::extract_bytes(&frames[3])?,
@@ -2117,8 +2144,7 @@ impl CommandParser {
         if frames.len() != 4 {
             return Err(FerrousError::Command(CommandError::WrongNumberOfArguments("PSETEX".into())));
         }
-        let milliseconds = Self::extract_string(&frames[2])?.parse::<u64>()
-            .map_err(|_| FerrousError::Command(CommandError::InvalidIntegerValue))?;
+        let milliseconds = Self::extract_expire_millis(&frames[2], true)?;
         Ok(StringCommand::PSetEx {
             key: Self::extract_bytes(&frames[1])?,
             value: Self::extract_bytes(&frames[3])?,
@@ -2552,8 +2578,7 @@ impl CommandParser {
         let mut score_members = Vec::new();
         let mut i = 2;
         while i < frames.len() {
-            let score = Self::extract_string(&frames[i])?.parse::<f64>()
-                .map_err(|_| FerrousError::Command(CommandError::InvalidFloatValue))?;
+            let score = Self::extract_score(&frames[i])?;
             let member = Self::extract_bytes(&frames[i + 1])?;
             score_members.push((score, member));
             i += 2;
@@ -2652,10 +2677,8 @@ impl CommandParser {
         if frames.len() < 4 || frames.len() > 5 {
             return Err(FerrousError::Command(CommandError::WrongNumberOfArguments("ZRANGEBYSCORE".into())));
         }
-        let min_score = Self::extract_string(&frames[2])?.parse::<f64>()
-            .map_err(|_| FerrousError::Command(CommandError::InvalidFloatValue))?;
-        let max_score = Self::extract_string(&frames[3])?.parse::<f64>()
-            .map_err(|_| FerrousError::Command(CommandError::InvalidFloatValue))?;
+        let min_score = Self::extract_score(&frames[2])?;
+        let max_score = Self::extract_score(&frames[3])?;
         let with_scores = frames.len() == 5 && 
             Self::extract_string(&frames[4])?.to_uppercase() == "WITHSCORES";
         Ok(SortedSetCommand::ZRangeByScore {
@@ -2670,10 +2693,8 @@ impl CommandParser {
         if frames.len() != 4 {
             return Err(FerrousError::Command(CommandError::WrongNumberOfArguments("ZCOUNT".into())));
         }
-        let min_score = Self::extract_string(&frames[2])?.parse::<f64>()
-            .map_err(|_| FerrousError::Command(CommandError::InvalidFloatValue))?;
-        let max_score = Self::extract_string(&frames[3])?.parse::<f64>()
-            .map_err(|_| FerrousError::Command(CommandError::InvalidFloatValue))?;
+        let min_score = Self::extract_score(&frames[2])?;
+        let max_score = Self::extract_score(&frames[3])?;
         Ok(SortedSetCommand::ZCount {
             key: Self::extract_bytes(&frames[1])?,
             min_score,
@@ -2685,8 +2706,7 @@ impl CommandParser {
         if frames.len() != 4 {
             return Err(FerrousError::Command(CommandError::WrongNumberOfArguments("ZINCRBY".into())));
         }
-        let increment = Self::extract_string(&frames[2])?.parse::<f64>()
-            .map_err(|_| FerrousError::Command(CommandError::InvalidFloatValue))?;
+        let increment = Self::extract_score(&frames[2])?;
         Ok(SortedSetCommand::ZIncrBy {
             key: Self::extract_bytes(&frames[1])?,
             increment,
@@ -2710,9 +2730,17 @@ impl CommandParser {
             return Err(FerrousError::Command(CommandError::WrongNumberOfArguments("EXPIRE".into())));
         }
         let key = Self::extract_bytes(&frames[1])?;
-        let seconds = Self::extract_string(&frames[2])?.parse::<u64>()
-            .map_err(|_| FerrousError::Command(CommandError::InvalidIntegerValue))?;
-        Ok(KeyCommand::Expire { key, seconds })
+        let seconds = Self::extract_string(&frames[2])?.parse::<i64>()
+            .map_err(|_| FerrousError::Command(CommandError::NotInteger))?;
+        // Like the command handler: a deadline that is not in the future deletes
+        // the key, one beyond the clock is refused
+        if seconds <= 0 {
+            return Ok(KeyCommand::Expire { key, seconds: 0 }); // 0 = delete now
+        }
+        if seconds > i64::MAX / 1000 {
+            return Err(FerrousError::Command(CommandError::Generic("invalid expire time in 'expire' command".to_string())));
+        }
+        Ok(KeyCommand::Expire { key, seconds: seconds as u64 })
     }
 
     fn parse_pexpire(frames: &[RespFrame]) -> Result<KeyCommand> {
@@ -2720,9 +2748,12 @@ impl CommandParser {
             return Err(FerrousError::Command(CommandError::WrongNumberOfArguments("PEXPIRE".into())));
         }
         let key = Self::extract_bytes(&frames[1])?;
-        let milliseconds = Self::extract_string(&frames[2])?.parse::<u64>()
-            .map_err(|_| FerrousError::Command(CommandError::InvalidIntegerValue))?;
-        Ok(KeyCommand::PExpire { key, milliseconds })
+        let milliseconds = Self::extract_string(&frames[2])?.parse::<i64>()
+            .map_err(|_| FerrousError::Command(CommandError::NotInteger))?;
+        if milliseconds <= 0 {
+            return Ok(KeyCommand::PExpire { key, milliseconds: 0 }); // 0 = delete now
+        }
+        Ok(KeyCommand::PExpire { key, milliseconds: milliseconds as u64 })
     }
 
     fn parse_ttl(frames: &[RespFrame]) -> Result<KeyCommand> {
@@ -2850,10 +2881,8 @@ impl CommandParser {
         if frames.len() != 4 {
             return Err(FerrousError::Command(CommandError::WrongNumberOfArguments("ZREMRANGEBYSCORE".into())));
         }
-        let min_score = Self::extract_string(&frames[2])?.parse::<f64>()
-            .map_err(|_| FerrousError::Command(CommandError::InvalidFloatValue))?;
-        let max_score = Self::extract_string(&frames[3])?.parse::<f64>()
-            .map_err(|_| FerrousError::Command(CommandError::InvalidFloatValue))?;
+        let min_score = Self::extract_score(&frames[2])?;
+        let max_score = Self::extract_score(&frames[3])?;
         Ok(SortedSetCommand::ZRemRangeByScore {
             key: Self::extract_bytes(&frames[1])?,
             min_score,
@@ -3031,8 +3060,21 @@ impl CommandParser {
         }
         let key = Self::extract_bytes(&frames[1])?;
         let strategy = Self::extract_string(&frames[2])?;
-        let threshold = Self::extract_string(&frames[3])?.parse::<usize>()
-            .map_err(|_| FerrousError::Command(CommandError::InvalidIntegerValue))?;
+        // XTRIM key MAXLEN [=|~] threshold
+        let modifier = Self::extract_string(&frames[3])?;
+        let threshold_frame = if modifier == "=" || modifier == "~" {
+            if frames.len() != 5 {
+                return Err(FerrousError::Command(CommandError::SyntaxError("Missing XTRIM threshold".to_string())));
+            }
+            &frames[4]
+        } else {
+            if frames.len() != 4 {
+                return Err(FerrousError::Command(CommandError::SyntaxError("Unexpected XTRIM argument".to_string())));
+            }
+            &frames[3]
+        };
+        let threshold = Self::extract_string(threshold_frame)?.parse::<usize>()
+            .map_err(|_| FerrousError::Command(CommandError::NotInteger))?;
         Ok(StreamCommand::XTrim { key, strategy, threshold })
     }
     
